@@ -211,6 +211,62 @@ namespace Uft.TextScan
 theorem isOob_bind' {α β : Type} {x : PR α} {f : α → PR β} (hx : x.isOob = false)
     (hf : ∀ a, (f a).isOob = false) : (x >>= f).isOob = false := isOob_bind hx hf
 
+/-- the loop never returns `oob` when its body never does on the lines the source can deliver -/
+theorem lineLoop_safe {σ : Type} {get : Bytes → Option (Bytes × Bytes)} {step : σ → Bytes → PR (σ × Bool)}
+    (Q : Bytes → Prop) (hget : ∀ s l r, get s = some (l, r) → Q l)
+    (hstep : ∀ st l, Q l → (step st l).isOob = false) (n : Nat) (s : Bytes) (st : σ) :
+    (lineLoop get step n s st).isOob = false := by
+  induction n generalizing s st with
+  | zero => simp [lineLoop]
+  | succ n ih =>
+    unfold lineLoop
+    cases h : get s with
+    | none => rfl
+    | some p =>
+      obtain ⟨l, r⟩ := p
+      simp only
+      have := hstep st l (hget s l r h)
+      cases hs : step st l with
+      | ok q =>
+        obtain ⟨st1, c⟩ := q
+        cases c with
+        | true => exact ih r st1
+        | false => rfl
+      | err e => rfl
+      | oob t => rw [hs] at this; simp at this
+
+/-- an invariant of the loop body is an invariant of the loop -/
+theorem lineLoop_inv {σ : Type} {get : Bytes → Option (Bytes × Bytes)} {step : σ → Bytes → PR (σ × Bool)}
+    (P : σ → Prop) (hstep : ∀ st l st1 c, P st → step st l = .ok (st1, c) → P st1)
+    (n : Nat) (s : Bytes) (st st' : σ) (h : lineLoop get step n s st = .ok st') (hp : P st) : P st' := by
+  induction n generalizing s st with
+  | zero =>
+    simp only [lineLoop, PR.ok.injEq] at h
+    rw [← h]; exact hp
+  | succ n ih =>
+    unfold lineLoop at h
+    cases hg : get s with
+    | none =>
+      rw [hg] at h
+      simp only [PR.ok.injEq] at h
+      rw [← h]; exact hp
+    | some p =>
+      obtain ⟨l, r⟩ := p
+      rw [hg] at h
+      simp only at h
+      cases hs : step st l with
+      | ok q =>
+        obtain ⟨st1, c⟩ := q
+        rw [hs] at h
+        have hp1 := hstep st l st1 c hp hs
+        cases c with
+        | true => exact ih r st1 h hp1
+        | false =>
+          simp only [PR.ok.injEq] at h
+          rw [← h]; exact hp1
+      | err e => rw [hs] at h; simp at h
+      | oob t => rw [hs] at h; simp at h
+
 theorem lits_safe (n : Nat) (s : String) : ∀ d ∈ lits s, dirSafe n d := by
   intro d hd
   simp only [lits, List.mem_map] at hd
@@ -226,17 +282,17 @@ theorem copyInfoStr_safe (s : Bytes) : (copyInfoStr true s).isOob = false := by
   unfold copyInfoStr
   split <;> simp
 
-theorem bufLine_safe (s : Bytes) : (bufLine s).isOob = false := by
+theorem bufLine_safe (nl : Bool) (s : Bytes) : (bufLine nl s).isOob = false := by
   unfold bufLine
   split <;> simp
 
-theorem gLine_safe (s : Bytes) : (gLine s).isOob = false := by
+theorem gLine_safe (nl : Bool) (s : Bytes) : (gLine nl s).isOob = false := by
   unfold gLine
   split <;> simp
 
-theorem readKV_safe (key : String) (i : Info) (s : Bytes) : (readKV true key i s).isOob = false := by
+theorem readKV_safe (nl : Bool) (key : String) (i : Info) (s : Bytes) : (readKV true nl key i s).isOob = false := by
   unfold readKV
-  apply isOob_bind' (bufLine_safe s)
+  apply isOob_bind' (bufLine_safe nl s)
   intro ⟨l, r⟩
   simp only
   split
@@ -266,13 +322,13 @@ theorem scanLines_safe (max : Nat) (t : Bytes) : (scanLines max t).isOob = false
   | err e => rfl
   | oob tg => rw [hr] at h; simp at h
 
-theorem sectionLoop_safe (pre : String) (keys : List String) (n : Nat) (i : Info) (s : Bytes) :
-    (sectionLoop true pre keys n i s).isOob = false := by
+theorem sectionLoop_safe (nl : Bool) (pre : String) (keys : List String) (n : Nat) (i : Info) (s : Bytes) :
+    (sectionLoop true nl pre keys n i s).isOob = false := by
   induction n generalizing i s with
   | zero => simp [sectionLoop]
   | succ n ih =>
     unfold sectionLoop
-    apply isOob_bind' (bufLine_safe s)
+    apply isOob_bind' (bufLine_safe nl s)
     intro ⟨l, r⟩
     simp only
     split
@@ -283,17 +339,17 @@ theorem sectionLoop_safe (pre : String) (keys : List String) (n : Nat) (i : Info
         exact ih _ _
       · exact ih _ _
 
-theorem readSection_safe (pre : String) (max : Nat) (keys : List String) (i : Info) (s : Bytes) :
-    (readSection true pre max keys i s).isOob = false := by
+theorem readSection_safe (nl : Bool) (pre : String) (max : Nat) (keys : List String) (i : Info) (s : Bytes) :
+    (readSection true nl pre max keys i s).isOob = false := by
   unfold readSection
-  apply isOob_bind' (bufLine_safe s)
+  apply isOob_bind' (bufLine_safe nl s)
   intro ⟨l, r⟩
   simp only
   split
   · rfl
   · apply isOob_bind' (scanLines_safe _ _)
     intro n
-    exact sectionLoop_safe _ _ _ _ _
+    exact sectionLoop_safe nl _ _ _ _ _
 
 theorem tidsLoop_safe (cap n : Nat) (cur tstr : Bytes) (acc : List Int) :
     (tidsLoop true cap n cur tstr acc).isOob = false := by
@@ -312,12 +368,12 @@ theorem tidsLoop_safe (cap n : Nat) (cur tstr : Bytes) (acc : List Int) :
           · rfl
         · rfl
 
-theorem taskLoop_safe (n : Nat) (i : Info) (s : Bytes) : (taskLoop true n i s).isOob = false := by
+theorem taskLoop_safe (nl : Bool) (n : Nat) (i : Info) (s : Bytes) : (taskLoop true nl n i s).isOob = false := by
   induction n generalizing i s with
   | zero => simp [taskLoop]
   | succ n ih =>
     unfold taskLoop
-    apply isOob_bind' (gLine_safe s)
+    apply isOob_bind' (gLine_safe nl s)
     intro ⟨l, r⟩
     simp only
     split
@@ -334,23 +390,23 @@ theorem taskLoop_safe (n : Nat) (i : Info) (s : Bytes) : (taskLoop true n i s).i
             · exact ih _ _
         · rfl
 
-theorem readTaskinfo_safe (i : Info) (s : Bytes) : (readTaskinfo true i s).isOob = false := by
+theorem readTaskinfo_safe (nl : Bool) (i : Info) (s : Bytes) : (readTaskinfo true nl i s).isOob = false := by
   unfold readTaskinfo
-  apply isOob_bind' (gLine_safe s)
+  apply isOob_bind' (gLine_safe nl s)
   intro ⟨l, r⟩
   simp only
   split
   · rfl
   · apply isOob_bind' (scanLines_safe _ _)
     intro n
-    exact taskLoop_safe _ _ _
+    exact taskLoop_safe nl _ _ _
 
-theorem argLoop_safe (n : Nat) (i : Info) (s : Bytes) : (argLoop true n i s).isOob = false := by
+theorem argLoop_safe (nl : Bool) (n : Nat) (i : Info) (s : Bytes) : (argLoop true nl n i s).isOob = false := by
   induction n generalizing i s with
   | zero => simp [argLoop]
   | succ n ih =>
     unfold argLoop
-    apply isOob_bind' (gLine_safe s)
+    apply isOob_bind' (gLine_safe nl s)
     intro ⟨l, r⟩
     simp only
     split
@@ -361,9 +417,9 @@ theorem argLoop_safe (n : Nat) (i : Info) (s : Bytes) : (argLoop true n i s).isO
       · exact ih _ _
       · rfl
 
-theorem readArgSpec_safe (i : Info) (s : Bytes) : (readArgSpec true i s).isOob = false := by
+theorem readArgSpec_safe (nl : Bool) (i : Info) (s : Bytes) : (readArgSpec true nl i s).isOob = false := by
   unfold readArgSpec
-  apply isOob_bind' (gLine_safe s)
+  apply isOob_bind' (gLine_safe nl s)
   intro ⟨l, r⟩
   simp only
   split
@@ -374,79 +430,79 @@ theorem readArgSpec_safe (i : Info) (s : Bytes) : (readArgSpec true i s).isOob =
       rfl
     · apply isOob_bind' (scanLines_safe _ _)
       intro n
-      exact argLoop_safe _ _ _
+      exact argLoop_safe nl _ _ _
 
-theorem readPrefixOnly_safe (key : String) (i : Info) (s : Bytes) :
-    (readPrefixOnly key i s).isOob = false := by
+theorem readPrefixOnly_safe (nl : Bool) (key : String) (i : Info) (s : Bytes) :
+    (readPrefixOnly nl key i s).isOob = false := by
   unfold readPrefixOnly
-  apply isOob_bind' (bufLine_safe s)
+  apply isOob_bind' (bufLine_safe nl s)
   intro ⟨l, r⟩
   simp only
   split <;> rfl
 
-theorem readExitStatus_safe (i : Info) (s : Bytes) : (readExitStatus i s).isOob = false := by
+theorem readExitStatus_safe (nl : Bool) (i : Info) (s : Bytes) : (readExitStatus nl i s).isOob = false := by
   unfold readExitStatus
-  apply isOob_bind' (bufLine_safe s)
+  apply isOob_bind' (bufLine_safe nl s)
   intro ⟨l, r⟩
   simp only
   split
   · rfl
   · split <;> rfl
 
-theorem readRecordDate_safe (i : Info) (s : Bytes) : (readRecordDate true i s).isOob = false := by
+theorem readRecordDate_safe (nl : Bool) (i : Info) (s : Bytes) : (readRecordDate true nl i s).isOob = false := by
   unfold readRecordDate
-  apply isOob_bind' (readKV_safe _ _ _)
+  apply isOob_bind' (readKV_safe nl _ _ _)
   intro ⟨i1, r1⟩
-  exact readKV_safe _ _ _
+  exact readKV_safe nl _ _ _
 
-theorem readPatternType_safe (i : Info) (s : Bytes) : (readPatternType i s).isOob = false := by
+theorem readPatternType_safe (nl : Bool) (i : Info) (s : Bytes) : (readPatternType nl i s).isOob = false := by
   unfold readPatternType
-  apply isOob_bind' (bufLine_safe s)
+  apply isOob_bind' (bufLine_safe nl s)
   intro ⟨l, r⟩
   simp only
   split <;> rfl
 
-theorem handler_safe (bit : Nat) (i : Info) (s : Bytes) : (handler true bit i s).isOob = false := by
+theorem handler_safe (nl : Bool) (bit : Nat) (i : Info) (s : Bytes) : (handler true nl bit i s).isOob = false := by
   unfold handler
   split
-  · exact readKV_safe _ _ _
+  · exact readKV_safe nl _ _ _
   · rfl
-  · exact readExitStatus_safe _ _
-  · exact readKV_safe _ _ _
-  · exact readSection_safe _ _ _ _ _
-  · exact readKV_safe _ _ _
-  · exact readSection_safe _ _ _ _ _
-  · exact readTaskinfo_safe _ _
-  · exact readSection_safe _ _ _ _ _
-  · exact readPrefixOnly_safe _ _ _
-  · exact readArgSpec_safe _ _
-  · exact readRecordDate_safe _ _
-  · exact readPatternType_safe _ _
-  · exact readKV_safe _ _ _
-  · exact readKV_safe _ _ _
+  · exact readExitStatus_safe nl _ _
+  · exact readKV_safe nl _ _ _
+  · exact readSection_safe nl _ _ _ _ _
+  · exact readKV_safe nl _ _ _
+  · exact readSection_safe nl _ _ _ _ _
+  · exact readTaskinfo_safe nl _ _
+  · exact readSection_safe nl _ _ _ _ _
+  · exact readPrefixOnly_safe nl _ _ _
+  · exact readArgSpec_safe nl _ _
+  · exact readRecordDate_safe nl _ _
+  · exact readPatternType_safe nl _ _
+  · exact readKV_safe nl _ _ _
+  · exact readKV_safe nl _ _ _
   · rfl
 
-theorem readHandlers_safe (mask : Nat) (bits : List Nat) (i : Info) (s : Bytes) :
-    (readHandlers true mask bits i s).isOob = false := by
+theorem readHandlers_safe (nl : Bool) (mask : Nat) (bits : List Nat) (i : Info) (s : Bytes) :
+    (readHandlers true nl mask bits i s).isOob = false := by
   induction bits generalizing i s with
   | nil => simp [readHandlers]
   | cons bit rest ih =>
     unfold readHandlers
     split
     · exact ih _ _
-    · have := handler_safe bit i s
-      cases hh : handler true bit i s with
+    · have := handler_safe nl bit i s
+      cases hh : handler true nl bit i s with
       | ok p => exact ih _ _
       | err e => rfl
       | oob t => rw [hh] at this; simp at this
 
-theorem parseInfo_safe (s : Bytes) : (parseInfo true s).isOob = false := by
+theorem parseInfo_safe (nl : Bool) (s : Bytes) : (parseInfo true nl s).isOob = false := by
   unfold parseInfo
   cases hp : parseHdr s with
   | ok p =>
     simp only
-    have := readHandlers_safe p.1.infoMask (List.range 15) {} p.2
-    cases hh : readHandlers true p.1.infoMask (List.range 15) {} p.2 with
+    have := readHandlers_safe nl p.1.infoMask (List.range 15) {} p.2
+    cases hh : readHandlers true nl p.1.infoMask (List.range 15) {} p.2 with
     | ok i => rfl
     | err e => rfl
     | oob t => rw [hh] at this; simp at this
@@ -578,23 +634,26 @@ theorem parseLine_safe (l : Bytes) : (parseLine true l).isOob = false := by
             · rfl
             · rename_i h; rw [h] at this; simp at this
 
-theorem parseLines_safe (n : Nat) (s : Bytes) (acc : List Item) :
-    (parseLines true n s acc).isOob = false := by
-  induction n generalizing s acc with
-  | zero => simp [parseLines]
-  | succ n ih =>
-    unfold parseLines
-    split
-    · rfl
-    · rename_i l r _
-      have := parseLine_safe (cstr l)
-      split
-      · exact ih _ _
-      · exact ih _ _
-      · rfl
-      · rename_i h; rw [h] at this; simp at this
+theorem taskStep_safe (acc : List Item) (l : Bytes) : (taskStep true acc l).isOob = false := by
+  unfold taskStep
+  have := parseLine_safe (cstr l)
+  split
+  · rfl
+  · rfl
+  · rfl
+  · rename_i h; rw [h] at this; simp at this
 
-theorem parseTaskTxt_safe (s : Bytes) : (parseTaskTxt true s).isOob = false :=
+theorem parseLines_safe (nl : Bool) (n : Nat) (s : Bytes) :
+    (parseLines true nl n s).isOob = false := by
+  unfold parseLines
+  have := lineLoop_safe (get := getLineG nl) (step := taskStep true) (fun _ => True)
+    (fun _ _ _ _ => trivial) (fun st l _ => taskStep_safe st l) n s []
+  split
+  · rfl
+  · rfl
+  · rename_i h; rw [h] at this; simp at this
+
+theorem parseTaskTxt_safe (nl : Bool) (s : Bytes) : (parseTaskTxt true nl s).isOob = false :=
   parseLines_safe _ _ _
 
 theorem chromeHeader_safe (items : List Item) (tids : List Int) :
@@ -637,57 +696,63 @@ theorem mapLine_safe {l : Bytes} (h : l.length ≤ 4095) (m : Maps) : (mapLine t
   · rfl
   · rename_i hh; rw [hh] at this; simp at this
 
-theorem mapLines_safe (n : Nat) (s : Bytes) (m : Maps) : (mapLines true n s m).isOob = false := by
-  induction n generalizing s m with
-  | zero => simp [mapLines]
-  | succ n ih =>
-    unfold mapLines
-    split
-    · rfl
-    · rename_i l r hf
-      have hl : (cstr l).length ≤ 4095 := by
-        have := fgets_le hf
-        have := cstr_le l
-        omega
-      have := mapLine_safe hl m
-      split
-      · exact ih _ _
-      · rfl
-      · rename_i hh; rw [hh] at this; simp at this
+theorem mapStep_safe {l : Bytes} (h : l.length ≤ 4095) (m : Maps) : (mapStep true m l).isOob = false := by
+  unfold mapStep
+  have hl : (cstr l).length ≤ 4095 := by
+    have := cstr_le l
+    omega
+  have := mapLine_safe hl m
+  split
+  · rfl
+  · rfl
+  · rename_i hh; rw [hh] at this; simp at this
 
-theorem parseMap_safe (s : Bytes) : (parseMap true s).isOob = false := mapLines_safe _ _ _
+theorem getMapLineG_le {nl : Bool} {s l r : Bytes} (h : getMapLineG nl s = some (l, r)) :
+    l.length ≤ 4095 := by
+  unfold getMapLineG nlGate at h
+  split at h
+  · rename_i l0 r0 hf
+    split at h
+    · simp at h
+    · simp only [Option.some.injEq, Prod.mk.injEq] at h
+      have := fgets_le hf
+      rw [← h.1]
+      omega
+  · simp at h
+
+theorem mapLines_safe (nl : Bool) (n : Nat) (s : Bytes) (m : Maps) : (mapLines true nl n s m).isOob = false :=
+  lineLoop_safe (fun l => l.length ≤ 4095) (fun _ _ _ h => getMapLineG_le h)
+    (fun st _ hl => mapStep_safe hl st) n s m
+
+theorem parseMap_safe (nl : Bool) (s : Bytes) : (parseMap true nl s).isOob = false := mapLines_safe _ _ _ _
 
 theorem hdrValue_safe (v : Bytes) : (hdrValue true v).isOob = false := by
   unfold hdrValue
   split <;> simp
 
-theorem checkLoop_safe (n : Nat) (s : Bytes) (h : SymHdr) : (checkLoop true n s h).isOob = false := by
-  induction n generalizing s h with
-  | zero => simp [checkLoop]
-  | succ n ih =>
-    unfold checkLoop
-    split
+theorem checkStep_safe (h : SymHdr) (l0 : Bytes) : (checkStep true h l0).isOob = false := by
+  unfold checkStep
+  simp only
+  split
+  · rfl
+  · split
     · rfl
-    · simp only
-      split
-      · rfl
-      · split
+    · split
+      · have := hdrValue_safe ((cstr l0).drop 13)
+        split
         · rfl
-        · split
-          · rename_i l0 r _ _ _ _
-            have := hdrValue_safe ((cstr l0).drop 13)
-            split
-            · exact ih _ _
-            · rfl
-            · rename_i hh; rw [hh] at this; simp at this
-          · split
-            · rename_i l0 r _ _ _ _ _
-              have := hdrValue_safe (((cstr l0).drop 12).take 40)
-              split
-              · exact ih _ _
-              · rfl
-              · rename_i hh; rw [hh] at this; simp at this
-            · exact ih _ _
+        · rfl
+        · rename_i hh; rw [hh] at this; simp at this
+      · split
+        · have := hdrValue_safe (((cstr l0).drop 12).take 40)
+          split
+          · rfl
+          · rfl
+          · rename_i hh; rw [hh] at this; simp at this
+        · rfl
+
+theorem checkLoop_safe (nl : Bool) (n : Nat) (s : Bytes) (h : SymHdr) : (checkLoop true nl n s h).isOob = false :=
+  lineLoop_safe (fun _ => True) (fun _ _ _ _ => trivial) (fun st l _ => checkStep_safe st l) n s h
 
 theorem symTail_safe (a z : Nat) (ty : UInt8) (p : Bytes) : (symTail a z ty p).isOob = false := by
   unfold symTail
@@ -706,33 +771,35 @@ theorem symLine_safe (l : Bytes) : (symLine true l).isOob = false := by
     · exact symTail_safe _ _ _ _
   · rfl
 
-theorem symLines_safe (n : Nat) (s : Bytes) (acc : List SymLine) :
-    (symLines true n s acc).isOob = false := by
-  induction n generalizing s acc with
-  | zero => simp [symLines]
-  | succ n ih =>
-    unfold symLines
+theorem symStep_safe (acc : List SymLine) (l0 : Bytes) : (symStep true acc l0).isOob = false := by
+  unfold symStep
+  simp only
+  split
+  · rfl
+  · have := symLine_safe (cstr l0)
     split
     · rfl
-    · rename_i l0 r _
-      simp only
-      split
-      · exact ih _ _
-      · have := symLine_safe (cstr l0)
-        split
-        · exact ih _ _
-        · exact ih _ _
-        · rfl
-        · rename_i hh; rw [hh] at this; simp at this
+    · rfl
+    · rfl
+    · rename_i hh; rw [hh] at this; simp at this
 
-theorem parseSym_safe (modname s : Bytes) : (parseSym true modname s).isOob = false := by
+theorem symLines_safe (nl : Bool) (n : Nat) (s : Bytes) : (symLines true nl n s).isOob = false := by
+  unfold symLines
+  have := lineLoop_safe (get := getLineG nl) (step := symStep true) (fun _ => True)
+    (fun _ _ _ _ => trivial) (fun st l _ => symStep_safe st l) n s []
+  split
+  · rfl
+  · rfl
+  · rename_i h; rw [h] at this; simp at this
+
+theorem parseSym_safe (nl : Bool) (modname s : Bytes) : (parseSym true nl modname s).isOob = false := by
   unfold parseSym
-  have h1 := checkLoop_safe (s.length + 1) s {}
+  have h1 := checkLoop_safe nl (s.length + 1) s {}
   unfold checkSymFile
   split
   · split
     · rfl
-    · have h2 := symLines_safe (s.length + 1) s []
+    · have h2 := symLines_safe nl (s.length + 1) s
       split
       · rfl
       · rfl
@@ -771,22 +838,18 @@ theorem mapLine_kb {fixed : Bool} {l : Bytes} {m m' : Maps} (h : mapLine fixed l
   · simp at h
   · simp at h
 
-theorem mapLines_kb {fixed : Bool} (n : Nat) {s : Bytes} {m m' : Maps}
-    (h : mapLines fixed n s m = .ok m') (hk : 0x40000000 ≤ m.kernelBase) :
+theorem mapLines_kb {fixed nl : Bool} (n : Nat) {s : Bytes} {m m' : Maps}
+    (h : mapLines fixed nl n s m = .ok m') (hk : 0x40000000 ≤ m.kernelBase) :
     0x40000000 ≤ m'.kernelBase := by
-  induction n generalizing s m with
-  | zero =>
-    simp only [mapLines, PR.ok.injEq] at h
-    rw [← h]; exact hk
-  | succ n ih =>
-    unfold mapLines at h
-    split at h
-    · simp only [PR.ok.injEq] at h
-      rw [← h]; exact hk
-    · split at h
-      · rename_i hm
-        exact ih h (mapLine_kb hm hk)
-      · simp at h
-      · simp at h
+  refine lineLoop_inv (fun m => 0x40000000 ≤ m.kernelBase) ?_ n s m m' h hk
+  intro st l st1 c hp hs
+  unfold mapStep at hs
+  split at hs
+  · rename_i m1 hm
+    simp only [PR.ok.injEq, Prod.mk.injEq] at hs
+    rw [← hs.1]
+    exact mapLine_kb hm hp
+  · simp at hs
+  · simp at hs
 
 end Uft.TaskTxt
